@@ -357,6 +357,51 @@ def mutate_module_text(rng, text):
     return "".join(out)
 
 
+INT_SUFFIXES = ["u8", "u16", "u32", "u64", "u128", "usize", "i8", "i16", "i32", "i64", "i128", "isize"]
+
+
+def literal_text(rng):
+    """an integer literal spelling: mostly well formed (any base, underscores, suffix, either hex case, boundary
+    values of isize / usize), sometimes damaged"""
+    k = rng.random()
+    if k < 0.25:
+        n = rng.choice([0, 1, 7, 8, 9, 10, 15, 16, 255, 256, 2**31 - 1, 2**31, 2**32 - 1, 2**32, 2**63 - 1, 2**63, 2**63 + 1,
+                        2**64 - 1, 2**64, 2**64 + 1, 10**19, 10**25])
+    elif k < 0.6:
+        n = rng.randint(0, 300)
+    else:
+        n = rng.randint(0, 2**rng.choice([8, 16, 32, 63, 64, 65]))
+    base = rng.choice([2, 8, 10, 10, 16, 16])
+    digs = {2: bin(n)[2:], 8: oct(n)[2:], 10: str(n), 16: hex(n)[2:]}[base]
+    if base == 16 and rng.random() < 0.5:
+        digs = digs.upper()
+    if rng.random() < 0.4:
+        out = ""
+        for ch in digs:
+            out += ch + ("_" * rng.randint(1, 2) if rng.random() < 0.25 else "")
+        digs = out
+    pre = {2: "0b", 8: "0o", 10: "", 16: "0x"}[base]
+    if pre and rng.random() < 0.15:
+        pre += "_"
+    text = pre + digs
+    if rng.random() < 0.2:
+        text += rng.choice(INT_SUFFIXES)
+    elif rng.random() < 0.08:
+        text += rng.choice(["e", "e3", "E2", "f32", "x", "_", "u", "usize_", "a", "b1", "o7", "X1", ".0", ".", "e+1"])
+    if rng.random() < 0.15:
+        # damage: one character replaced / inserted / removed
+        alphabet = "0123456789abcdefABCDEFxob_.eE+-u"
+        i = rng.randrange(len(text) + 1)
+        j = rng.random()
+        if j < 0.4 and i < len(text):
+            text = text[:i] + rng.choice(alphabet) + text[i + 1:]
+        elif j < 0.8:
+            text = text[:i] + rng.choice(alphabet) + text[i:]
+        elif len(text) > 1 and i < len(text):
+            text = text[:i] + text[i + 1:]
+    return text
+
+
 def runner(pid, prop, tier, seed, scratch, replay=None):
     rng = random.Random(seed)
     nmods, nsyn = (500, 3000) if tier == "quick" else (20000, 100000)
@@ -409,6 +454,23 @@ def runner(pid, prop, tier, seed, scratch, replay=None):
         for t in texts:
             items.append(("module", t))
             items.append(("module", mutate_module_text(rng, t)))
+    # ---- D: integer literal spellings: the Coq lexical model (IntLit.v: what proc_macro2 + syn read, then
+    # base10_parse::<isize> / ::<usize>) vs the real parser, in an isize position (attribute argument) and in a
+    # usize position (unknown<N>)
+    lit_items = []
+    if not replay:
+        for _ in range(1200 if tier == "quick" else 40000):
+            t = literal_text(rng)
+            if not t or not t[0].isdigit() or any(c.isspace() for c in t):
+                continue
+            neg = rng.random() < 0.25
+            if rng.random() < 0.5:
+                lit_items.append(("isize", neg, t))
+                items.append(("attrs", "#[x(%s%s)]" % ("-" if neg else "", t)))
+            else:
+                lit_items.append(("usize", neg, t))
+                items.append(("type", "unknown<%s%s>" % ("-" if neg else "", t)))
+    nlit = len(lit_items)
     if items:
         inp = os.path.join(scratch, "syn.in")
         outp = os.path.join(scratch, "syn.out")
@@ -416,6 +478,29 @@ def runner(pid, prop, tier, seed, scratch, replay=None):
             f.write("\n".join("(%s %s)" % (k, sx.quote(s)) for k, s in items))
         subprocess.run([P.HARNESS_BIN, "syntax", inp, outp], check=True, timeout=600)
         reals = [sx.parse(l)[0] for l in open(outp, errors="replace") if l.strip()]
+        # part D first: the literal cases are the last nlit items
+        if nlit:
+            lit_reals = reals[len(items) - nlit:]
+            lres = P.run_model(["(lit %s %d %s)" % (k, 1 if neg else 0, sx.quote(t)) for k, neg, t in lit_items], scratch)
+            for (k, neg, t), r, mr in zip(lit_items, lit_reals, lres):
+                real = r[1]
+                rv = None
+                if isinstance(real, list) and real[0] == "ok":
+                    body = real[1]
+                    try:
+                        rv = int(body[1][2][1]) if k == "isize" else int(body[1])
+                    except Exception:  # noqa
+                        rv = "unreadable:" + sx.show(body)[:80]
+                mv = int(mr[1]) if isinstance(mr, list) and len(mr) > 1 and mr[0] == "ok" else None
+                dist["D:%s:%s" % (k, "accept" if rv is not None else "reject")] += 1
+                if real == "panic":
+                    out["failures"].append(dict(clause="C18.parser_panic", detail="literal `%s`" % t))
+                elif rv != mv:
+                    out["breaks"].append(dict(aspect="literal_model", detail="literal `%s%s` read as %s: real parser %s, IntLit.v %s" % (
+                        "-" if neg else "", t, k, rv, mv)))
+            items = items[:len(items) - nlit]
+            reals = reals[:len(items)]
+            out["evaluations"] += nlit
         mcases = []
         idx = []
         for n_, ((k, s), r) in enumerate(zip(items, reals)):
